@@ -57,3 +57,9 @@ CHECKS["C30"] = ("property-based testing with a time-based oracle (tiny qualifyi
 CHECKS["C15"] = ("in-process property-based testing (rapidcheck register machine + exhaustive boundary pairs) against a GMP reference model, ASan/UBSan on",
                  "FastRational is compared with mpq_class/mpz_class after every step of generated operation sequences and on all pairs of a 378-value boundary set x 22 operations; representation invariants and hashes included. Exploration (the boundary set is enumerated exhaustively).",
                  "GMP as the exact model; sanitizer build of the library", "DESIGN.md §4 C15")
+CHECKS["C14"] = ("in-process property-based testing (rapidcheck-driven term builder, libz3 equivalence oracle, ASan/UBSan)",
+                 "Generated constructor calls on normal-form arguments with boundary constants and repeated/complementary arguments; libz3 must prove the result equivalent to the operator applied to the arguments. Exploration only.",
+                 "libz3 4.8 as semantic oracle; term printing trusted (checked by C17)", "DESIGN.md §4 C14")
+CHECKS["C27"] = ("in-process property-based testing + exhaustive boundary constants (rapidcheck, mpz Euclidean reference, libz3 for Int semantics)",
+                 "div/mod folding on all pairs of a boundary pool against the Euclidean definition; generated integer relations and div/mod eliminations checked by libz3. Exploration (the constant pool is enumerated exhaustively).",
+                 "mpz and libz3 as references", "DESIGN.md §4 C27")
